@@ -363,7 +363,7 @@ pub fn run(ctx: &Ctx, evidence: Option<&PathBuf>) -> i32 {
     ctx.run_cases("histories", n, history);
     let (runs, threads_n, iters) = match ctx.scale {
         Scale::Full => (ctx.size(12, 400), 12, 8_000),
-        Scale::San => (4, 8, 1_000),
+        Scale::San => (8, 12, 4_000),
         Scale::Miri => (1, 3, 12),
     };
     ctx.run_cases_serial("threads", runs, |c| thread_stress(c, threads_n, iters));
